@@ -1,0 +1,17 @@
+//go:build !verif
+
+// Package vhook holds verification hooks. Without the `verif` build tag every
+// function is an empty stub, so the default build carries no instrumentation.
+package vhook
+
+func Step(node any)                                    {}
+func LexStep()                                         {}
+func ParseStep()                                       {}
+func EnvDefine(env, parent any, name string)           {}
+func EnvLookup(kind string, env any, name string)      {}
+func EnvHit(kind string, env, parent any, name string) {}
+func EnvMiss(kind string, env any, name string)        {}
+func Call(callee any, nargs int)                       {}
+func Stdout(kind string)                               {}
+func Diag(channel string, line int, msg string)        {}
+func InputRead(n int, failed bool)                     {}
